@@ -104,6 +104,9 @@ def run(chk):
                    "put 0 into Count\nStep takes Lim\nbuild Count up\n" + ("give back Count is less than Lim\n" if kind == "while" else "give back Count is as great as Lim\n") + "\n")
             cases.append({"src": f"{pre}{kind} {cond}{blank}say \"after\"\n" + ("say Que\n" if "Que" in cond else "say Count\n"), "meta": "empty loop body"})
             cases.append({"src": f"{pre}if true\n{kind} {cond}{blank}say \"inner\"\n\n" + ("say Que\n" if "Que" in cond else "say Count\n"), "meta": "empty loop body nested"})
+    # layout: what ends a block, what separates statements, what does neither (model = implementation on every variant)
+    from . import gen_layout
+    cases += [{"src": t, "stdin": gen_layout.STDIN, "meta": "layout " + k.rstrip("0123456789")} for (k, t) in gen_layout.variants(quick, rng)]
     # an output fault in the middle: execution stops at that say
     faulted = []
     for c in cases[len(corpus_cases("exec")):len(corpus_cases("exec")) + (60 if quick else 600)]:
@@ -118,6 +121,8 @@ def run(chk):
                 "numbered say markers, conditions of every value kind incl. side-effecting `roll Q`; programs with a runtime error "
                 "in the middle (output before it must be preserved): 23 failing statement forms (unknown names, failing/ill-called "
                 "functions as statements and inside expressions, value errors, read fault) x 8 positions (top level, if, else, loops, "
-                "function bodies called as statement / in an expression / from a loop in an if); plus generated programs. Compared: stdout bytes and outcome, "
+                "function bodies called as statement / in an expression / from a loop in an if); layout variants of ten block-structured "
+                "programs (inserted lines of 20 kinds at every boundary, 15 line-ending conventions, blank lines removed / tripled, "
+                "truncation at every line, indentation, joined statements); plus generated programs. Compared: stdout bytes and outcome, "
                 "debug and release, model vs implementation. distinct = (output prefix, #ifs, #loops)")
     conclude(chk, "C04", proved)
